@@ -101,6 +101,10 @@ def mutate_framework(S, m):
         set_cell(P, "foi", "Function", "beta*inf/max(alive,1) + ghost")
     elif m == "undefined_characteristic_component":
         set_cell(S["Characteristics"], "alive", "Components", "sus, inf, rcv, ghost")
+    elif m in ("add_residual_outflow", "two_residual_outflows"):
+        trow("jn")[tcol("sus")] = ">"
+        if m == "two_residual_outflows":
+            trow("jn")[tcol("inf")] = ">"
     elif m == "unnested_cascade":
         S["Cascades"] = [["Care cascade", "Constituents"], ["Not yet recovered", "sus, inf"], ["Ever infected", "inf, rcv"]]
     elif m == "unnested_cascade_later_stage":
@@ -189,6 +193,13 @@ def mutate_databook(at, Fw, D, m):
                     ws.cell(rr, cc).value = None
         elif m == "databook_unknown_population":
             ws.cell(r0 + 1, c0).value = "Nobody"
+        elif m in ("databook_missing_population_row", "databook_legacy_missing_population_row"):
+            for cc in range(1, ws.max_column + 1):  # the table lists adults only: the row for children is gone
+                ws.cell(r0 + 2, cc).value = None
+            if m == "databook_legacy_missing_population_row":  # older databooks have no population type column
+                pd_ = wb["Population Definitions"]
+                for rr in range(2, pd_.max_row + 1):  # (the column is there but left blank, as in most library databooks)
+                    pd_.cell(rr, 3).value = None
     out = io.BytesIO()
     wb.save(out)
     out.seek(0)
@@ -599,6 +610,32 @@ def run(prop, tier):
             outcome, runnable, detail = try_case(at, S0, p["mutation"])
         records.append(dict(id=rid, verdict=p["verdict"], outcome=outcome, runnable=bool(runnable)))
         index[rid] = dict(base=p["base"], mutation=p["mutation"], verdict=p["verdict"], outcome=outcome, runnable=runnable, detail=detail)
+    # every accepted framework can produce a blank databook that reads back: library frameworks (several population types, interactions
+    # between types, transfers) with unequal numbers of populations per type
+    import atomica
+    import sciris as sc
+
+    rid = len(records)
+    for name in (["combined", "tb_simple", "sir", "hiv"] + (["tb", "malaria", "diabetes", "udt", "usdt"] if tier == "thorough" else [])):
+        try:
+            Fw = at.ProjectFramework("%s/%s_framework.xlsx" % (atomica.LIBRARY_PATH, name))
+        except Exception as ex:
+            V.note_drift("library framework %s did not load: %s" % (name, str(ex)[:100]))
+            continue
+        types = list(Fw.pop_types.keys())
+        pops = sc.odict()
+        for k, tp in enumerate(types):
+            for j in range([3, 1, 2][k % 3]):
+                pops["%s%d" % (tp[:3], j)] = {"label": "Pop %s %d" % (tp, j), "type": tp}
+        try:
+            D = at.ProjectData.new(Fw, np.arange(2000, 2003), pops=pops, transfers=sc.odict([("mv", {"label": "Move", "type": types[0]})]) if len(types) else 0)
+            at.ProjectData.from_spreadsheet(D.to_spreadsheet(), Fw)
+            outcome, runnable, detail = "accepted", True, ""
+        except Exception as ex:
+            outcome, runnable, detail = "accepted", False, "blank databook: %s: %s" % (type(ex).__name__, str(ex)[:200])
+        records.append(dict(id=rid, verdict="accept", outcome=outcome, runnable=bool(runnable)))
+        index[rid] = dict(base="lib_" + name, mutation="blank_databook_reads_back", verdict="accept", outcome=outcome, runnable=runnable, detail=detail)
+        rid += 1
     # valid library files must be accepted and runnable too (environment permitting)
     bad, states = C.validate_batch(["ValidateTrace"], "ValidateTrace", records, chunks=1)
     cov["states"] += states
